@@ -2019,11 +2019,13 @@ structure SplitHyp (E : Env C) (t : Table C) (n : Nat) (tk : Name) (vars ests : 
   nodup : (reqKeys vars).Nodup
   /-- ... and none of them is `it`, `iteration`, `t`, `time` -/
   notemp : ∀ x ∈ reqKeys vars, x ∉ temporalNames
-  /-- C01: columns computed earlier and fed back do not change later values -/
-  fb : ∀ r ∈ rowsOf t n, FeedbackOK E (reqItems vars) r
+  /-- C01: columns computed earlier and fed back do not change later values
+  (only the items that are actually computed: valid and not yet in `t`) -/
+  fb : ∀ r ∈ rowsOf t n, FeedbackOK E (cleanVars E t vars) r
   /-- whether a column holds 3-D arrays does not depend on the row -/
   rank_t : UniformRank E t
-  rank_v : ∀ r ∈ rowsOf t n, ∀ r' ∈ rowsOf t n, ∀ c ∈ reqItems vars, E.is3 (c.val E r) = E.is3 (c.val E r')
+  rank_v : ∀ r ∈ rowsOf t n, ∀ r' ∈ rowsOf t n, ∀ c ∈ cleanVars E t vars,
+    E.is3 (c.val E r) = E.is3 (c.val E r')
   /-- every valid requested estimator returns a scalar, not a 3-D array -/
   rank_e : ∀ e ∈ allEsts E ests, ∀ c, E.is3 (estApply E e c) = false
 
@@ -2031,7 +2033,7 @@ structure SplitHyp (E : Env C) (t : Table C) (n : Nat) (tk : Name) (vars ests : 
 theorem stepVars_row (E : Env C) {t : Table C} {n : Nat} {tk : Name} {vars ests : List Req}
     (H : SplitHyp E t n tk vars ests) {r : Row C} (hr : r ∈ rowsOf t n) :
     stepVars E (cleanVars E t vars) r = r ++ varEntries E r (cleanVars E t vars) := by
-  apply stepVars_nf0 E (H.fb r hr) _ (fun v hv => (cleanVars_sublist E t vars).subset hv)
+  apply stepVars_nf0 E (H.fb r hr) _ (fun v hv => hv)
     (cleanVars_names_nodup E t H.nodup)
   intro v hv
   rw [keys_of_mem_rowsOf H.wf hr]
@@ -2042,10 +2044,11 @@ theorem scalarKeys_stepVars_uniform (E : Env C) {t : Table C} {n : Nat} {tk : Na
     scalarKeys E (stepVars E (cleanVars E t vars) r) = scalarKeys E (stepVars E (cleanVars E t vars) r') := by
   rw [stepVars_row E H hr, stepVars_row E H hr', scalarKeys_append, scalarKeys_append,
     scalarKeys_rows_uniform E H.wf H.rank_t hr hr',
-    scalarKeys_varEntries_uniform E (fun v hv => H.rank_v r hr r' hr' v ((cleanVars_sublist E t vars).subset hv))]
+    scalarKeys_varEntries_uniform E (fun v hv => H.rank_v r hr r' hr' v hv)]
 
 theorem SplitHyp.mono {E : Env C} {t : Table C} {n : Nat} {tk : Name} {vars ests vars' ests' : List Req}
     (H : SplitHyp E t n tk vars ests) (hv : (reqItems vars').Sublist (reqItems vars))
+    (hcl : ∀ c ∈ cleanVars E t vars', c ∈ cleanVars E t vars)
     (he : ∀ e ∈ allEsts E ests', e ∈ allEsts E ests) : SplitHyp E t n tk vars' ests' where
   wf := H.wf
   pos := H.pos
@@ -2053,9 +2056,9 @@ theorem SplitHyp.mono {E : Env C} {t : Table C} {n : Nat} {tk : Name} {vars ests
   sw := H.sw
   nodup := List.Nodup.sublist (hv.map CReq.key) H.nodup
   notemp := fun x hx => H.notemp x ((hv.map CReq.key).subset hx)
-  fb := fun r hr => (H.fb r hr).mono (fun c hc => hv.subset hc)
+  fb := fun r hr => (H.fb r hr).mono hcl
   rank_t := H.rank_t
-  rank_v := fun r hr r' hr' c hc => H.rank_v r hr r' hr' c (hv.subset hc)
+  rank_v := fun r hr r' hr' c hc => H.rank_v r hr r' hr' c (hcl c hc)
   rank_e := fun e he' => H.rank_e e (he e he')
 
 theorem rowAt_zero_mem (t : Table C) {n : Nat} (hn : 0 < n) : rowAt t 0 ∈ rowsOf t n := by
@@ -2098,6 +2101,7 @@ theorem kc_vars (E : Env C) {t T1 : Table C} {n : Nat} {tk : Name} {v1 v2 e2 : L
       = callF E t (v1 ++ v2) e2 r := by
   have hwf := H.wf
   have H1 : SplitHyp E t n tk v1 [] := H.mono (by rw [reqItems_append]; exact List.sublist_append_left _ _)
+    (fun c hc => by rw [cleanVars_append]; exact List.mem_append_left _ hc)
     (fun e he => by simp [allEsts] at he)
   have hce1 : cleanedEsts E t (cleanVars E t v1) [] = [] := rfl
   have hF1 : ∀ r' ∈ rowsOf t n, callF E t v1 [] r' = r' ++ varEntries E r' (cleanVars E t v1) := by
@@ -2121,14 +2125,14 @@ theorem kc_vars (E : Env C) {t T1 : Table C} {n : Nat} {tk : Name} {v1 v2 e2 : L
       · exact absurd h (hdisj s hs)
     · exact Or.inl
   have hcv : cleanVars E t (v1 ++ v2) = cleanVars E t v1 ++ cleanVars E t v2 := cleanVars_append E t v1 v2
-  have hitems2 : ∀ v ∈ cleanVars E t v2, v ∈ reqItems (v1 ++ v2) := by
+  have hitems2 : ∀ v ∈ cleanVars E t v2, v ∈ cleanVars E t (v1 ++ v2) := by
     intro v hv
-    rw [reqItems_append]
-    exact List.mem_append_right _ ((cleanVars_sublist E t v2).subset hv)
-  have hitems1 : ∀ v ∈ cleanVars E t v1, v ∈ reqItems (v1 ++ v2) := by
+    rw [hcv]
+    exact List.mem_append_right _ hv
+  have hitems1 : ∀ v ∈ cleanVars E t v1, v ∈ cleanVars E t (v1 ++ v2) := by
     intro v hv
-    rw [reqItems_append]
-    exact List.mem_append_left _ ((cleanVars_sublist E t v1).subset hv)
+    rw [hcv]
+    exact List.mem_append_left _ hv
   have hnd2 : ((cleanVars E t v2).map CReq.key).Nodup := by
     have := cleanVars_names_nodup E t H.nodup
     rw [hcv, List.map_append, List.nodup_append] at this
@@ -2334,6 +2338,9 @@ theorem split_aux (E : Env C) {t : Table C} {n : Nat} {tk : Name} (calls : List 
     have H2 : SplitHyp E t n tk (v0 ++ c.1) (e0 ++ c.2) := by
       apply H.mono
       · rw [← List.append_assoc]; exact reqItems_sublist_append_left _ _
+      · intro c hc
+        rw [← List.append_assoc, cleanVars_append]
+        exact List.mem_append_left _ hc
       · intro e he
         rw [← List.append_assoc, allEsts_append]
         exact List.mem_append_left _ he
